@@ -1132,14 +1132,10 @@ func (c *dtChannel) resume(ctx context.Context, msg datatransfer.Message) error 
 }
 
 func (c *dtChannel) close(ctx context.Context) error {
-	var errch chan error
+	// cancel answers immediately when there is no request to cancel (never
+	// opened, or already cancelled)
 	c.lk.Lock()
-	{
-		// Check if the channel was already cancelled
-		if c.requestID != nil {
-			errch = c.cancel(ctx)
-		}
-	}
+	errch := c.cancel(ctx)
 	c.lk.Unlock()
 
 	// Wait for the cancel message to complete
